@@ -362,6 +362,7 @@ fn gen_level(rng: &mut Rng, cfg: &GenCfg, sw: &Swarm, names: &mut Names, level: 
         }
         if sw.external && cfg.allow_external && rng.chance(1, 2) && !(multicall_root && is_root) {
             c.set(CmdSetting::AllowExternalSubcommands);
+            c.ext_parser = rng.below(3) as u8;
         }
         if sw.override_self && rng.chance(1, 2) {
             c.set(CmdSetting::ArgsOverrideSelf);
@@ -464,7 +465,13 @@ fn gen_level(rng: &mut Rng, cfg: &GenCfg, sw: &Swarm, names: &mut Names, level: 
     let mut globals: Vec<String> = inherited_globals.to_vec();
     globals.extend(c.args.iter().filter(|a| a.global).map(|a| a.id.clone()));
     for _ in 0..n_subs {
-        let s = gen_level(rng, cfg, sw, names, level + 1, max_depth, multicall_root, &globals);
+        let mut s = gen_level(rng, cfg, sw, names, level + 1, max_depth, multicall_root, &globals);
+        // sometimes a later sibling's name merely extends an earlier sibling's name (`remote`, `remote-add`)
+        if let Some(prev) = c.subs.last() {
+            if rng.chance(1, 6) && !prev.name.contains("__") {
+                s.name = format!("{}{}", prev.name, rng.pick(&["-add", "2", "_x", "-all"]));
+            }
+        }
         c.subs.push(s);
     }
     c
@@ -617,7 +624,7 @@ fn gen_args(rng: &mut Rng, cfg: &GenCfg, sw: &Swarm, names: &mut Names, c: &mut 
                 a.require_equals = true;
             }
             if sw.delimiters && rng.chance(1, 3) {
-                a.value_delimiter = Some(*rng.pick(&[',', ':', ';']));
+                a.value_delimiter = Some(if cfg.hostile_names && rng.chance(1, 5) { *rng.pick(&['\u{3001}', '\u{b7}', '\u{a7}']) } else { *rng.pick(&[',', ':', ';']) });
             }
             if sw.terminators && a.is_multiple_values() && rng.chance(1, 2) {
                 a.value_terminator = Some((*rng.pick(&[";", "end", "--"])).to_string());
@@ -964,7 +971,32 @@ pub fn gen_argv(rng: &mut Rng, root: &CmdSpec, max_tokens: usize) -> Vec<B> {
                 return out;
             }
             if rng.below(100) < fault_rate {
-                out.push(junk_token(rng));
+                // half of the faults are near-misses of a real long flag of this level or of a subcommand
+                // (what the suggestion machinery reacts to)
+                let mut longs: Vec<&String> = level.args.iter().filter_map(|a| a.long.as_ref()).collect();
+                for s in &level.subs {
+                    longs.extend(s.args.iter().filter_map(|a| a.long.as_ref()));
+                    for s2 in &s.subs {
+                        longs.extend(s2.args.iter().filter_map(|a| a.long.as_ref()));
+                    }
+                }
+                if rng.coin() && !longs.is_empty() {
+                    let l: Vec<char> = rng.pick(&longs).chars().collect();
+                    let mut m = l.clone();
+                    if m.len() >= 3 {
+                        let k = rng.urange(1, m.len() - 2);
+                        match rng.below(3) {
+                            0 => {
+                                m.remove(k);
+                            }
+                            1 => m.swap(k, k + 1),
+                            _ => m.insert(k, 'x'),
+                        }
+                    }
+                    out.push(B::s(&format!("--{}", m.into_iter().collect::<String>())));
+                } else {
+                    out.push(junk_token(rng));
+                }
                 continue;
             }
             let Some(a) = rng.pick_opt(&args).copied() else {
@@ -1105,7 +1137,11 @@ pub fn gen_argv(rng: &mut Rng, root: &CmdSpec, max_tokens: usize) -> Vec<B> {
             if level.has(CmdSetting::AllowExternalSubcommands) && rng.chance(1, 3) {
                 out.push(B::s("extcmd"));
                 for _ in 0..rng.usize(3) {
-                    out.push(junk_token(rng));
+                    if rng.chance(1, 3) {
+                        out.push(B::s(*rng.pick(&["bad", "reject", "fine"])));
+                    } else {
+                        out.push(junk_token(rng));
+                    }
                 }
             }
             break;
